@@ -70,7 +70,7 @@ def packages_for(patch):
         if top == "iceoryx2":
             pk |= {"iceoryx2", "iceoryx2-conformance-tests"}
         elif top == "iceoryx2-cal":
-            pk |= {"iceoryx2-cal", "iceoryx2-cal-conformance-tests", "iceoryx2-conformance-tests"}
+            pk |= {"iceoryx2-cal", "iceoryx2-cal-conformance-tests"} | (set() if "--fast" in sys.argv else {"iceoryx2-conformance-tests"})
         elif top == "iceoryx2-ffi":
             pk |= {"iceoryx2-ffi-c"}
         elif top in ("iceoryx2-bb", "iceoryx2-pal"):
@@ -78,7 +78,7 @@ def packages_for(patch):
             while not os.path.exists(os.path.join(d, "Cargo.toml")):
                 d = os.path.dirname(d)
             name = re.search(r'name\s*=\s*"([^"]+)"', open(os.path.join(d, "Cargo.toml")).read()).group(1)
-            pk |= {name, "iceoryx2-cal", "iceoryx2-cal-conformance-tests", "iceoryx2-conformance-tests"}
+            pk |= {name, "iceoryx2-cal"} | (set() if "--fast" in sys.argv else {"iceoryx2-cal-conformance-tests", "iceoryx2-conformance-tests"})
             for extra in (name + "-tests", name + "-conformance-tests"):
                 rc, _ = sh(["cargo", "pkgid", "--offline", "-p", extra])
                 if rc == 0:
